@@ -11,6 +11,7 @@ KERNEL_ASSUMPTIONS = [
 COMMON = [
     "Kani 0.68.0 / CBMC 6.11.0 / cadical are trusted; results hold only inside the stated bounds (sizes, unwindings)",
     "x86_64 only; dev profile with overflow checks as Kani models it (counterexamples are replayed natively)",
+    "VERIF_SEED is recorded but has no influence: every verdict is a solver result over all values within the stated bounds, nothing is sampled",
 ]
 
 K_PROPS = {
